@@ -42,6 +42,28 @@ class PolarizedRays(RealRays):
         self._M0 = M.copy()
         self._N0 = N.copy()
 
+    def _rotate_p(self, matrix):
+        """Express the polarization matrices in a rotated frame."""
+        self.p = np.matmul(np.asarray(matrix, dtype=float), self.p)
+
+    def rotate_x(self, rx: float):
+        """Rotate the rays and their polarization matrices about x."""
+        super().rotate_x(rx)
+        c, s = np.cos(rx), np.sin(rx)
+        self._rotate_p([[1, 0, 0], [0, c, -s], [0, s, c]])
+
+    def rotate_y(self, ry: float):
+        """Rotate the rays and their polarization matrices about y."""
+        super().rotate_y(ry)
+        c, s = np.cos(ry), np.sin(ry)
+        self._rotate_p([[c, 0, s], [0, 1, 0], [-s, 0, c]])
+
+    def rotate_z(self, rz: float):
+        """Rotate the rays and their polarization matrices about z."""
+        super().rotate_z(rz)
+        c, s = np.cos(rz), np.sin(rz)
+        self._rotate_p([[c, -s, 0], [s, c, 0], [0, 0, 1]])
+
     def get_output_field(self, E: np.ndarray) -> np.ndarray:
         """
         Compute the output electric field given the input electric field.
